@@ -216,12 +216,14 @@ def files_job(job) -> dict:
             for rep in range(job.get("repeat", 1)):
                 p = rep + 1
                 if job["mode"] == "exposure":
-                    out = ExposureOutputs(output_folder=parent, save_data_to_file=save)
-                    cfg = job["cfg"]
-                    pipe = px.build_pipeline(cfg)
-                    det = px.make_detector("ccd", 2, 3)
-                    dt = pyxel.run_mode(Exposure(readout=px.build_readout(cfg), outputs=out), det, pipe,
-                                        with_inherited_coords=True)
+                    if rep == 0 or not job.get("reuse"):
+                        # `reuse`: the same Outputs / mode / detector / pipeline objects serve every run (a session)
+                        out = ExposureOutputs(output_folder=parent, save_data_to_file=save)
+                        cfg = job["cfg"]
+                        pipe = px.build_pipeline(cfg)
+                        det = px.make_detector("ccd", 2, 3)
+                        xmode = Exposure(readout=px.build_readout(cfg), outputs=out)
+                    dt = pyxel.run_mode(xmode, det, pipe, with_inherited_coords=True)
                     labels = [()]
                 else:
                     out = ObservationOutputs(output_folder=parent, save_data_to_file=save)
